@@ -1,4 +1,189 @@
-import Esp.Model.Conn
+import Esp.Props.C07
+/-!
+# C08 — closing a connection releases everything and silences it
+
+Property theorems over the connection LTS `Esp.Conn`.  Quantifier: every event list — a close at
+every atomic step of connect / handshake / login / steady state / disconnect, for every cause and
+combination of causes, including frames that follow the closing frame in the same chunk.
+-/
 namespace Esp.C08
-theorem placeholder : True := trivial
+open Esp Conn
+
+/-! ## silence -/
+
+/-- on a closed connection no primitive writes to the device or delivers to a subscriber -/
+theorem prim_quiet (a b : State) (hc : a.st = .closed) (p : Prim a b) :
+    b.writes = a.writes ∧ b.deliveries = a.deliveries := by
+  cases p
+  case write h1 _ => simp [hsComplete, hc] at h1
+  case deliver h => exact absurd hc h
+  case collect r _ => constructor <;> (simp only [collect]; (repeat' split) <;> rfl)
+  case finFutQuiet => constructor <;> (simp only [aFinFutQuiet]; split <;> rfl)
+  case trCancelled => constructor <;> (simp only [aTrCancelled]; split <;> rfl)
+  case startOk =>
+    constructor <;> (simp only [startOkPath, aStartFutCb]; (repeat' split) <;> rfl)
+  case helloOk =>
+    constructor <;> (simp only [helloOkPath, aFinFutCb]; (repeat' split) <;> rfl)
+  all_goals exact ⟨rfl, rfl⟩
+
+theorem reach_quiet (a b : State) (hi : C05.Inv a) (hc : a.st = .closed) (r : Reach a b) :
+    b.writes = a.writes ∧ b.deliveries = a.deliveries ∧ b.st = .closed := by
+  induction r with
+  | refl => exact ⟨rfl, rfl, hc⟩
+  | snoc r p ih =>
+    obtain ⟨i1, i2, i3⟩ := ih
+    have hb := (C05.reach_mono _ _ hi r).2
+    have hq := prim_quiet _ _ i3 p
+    exact ⟨hq.1.trans i1, hq.2.trans i2, (C05.life_mono _ _ hb (prim_life _ _ p)).2 i3⟩
+
+/-- **C08 (silence).**  Once the connection is closed, NO event — a task resuming with a request
+to send, a timer, a device frame (also one that follows the closing frame in the same chunk), a
+user call — writes anything more to the device or delivers anything more to a subscriber. -/
+theorem c08_silent (noise login : Bool) (evs : List Ev) (e : Ev) :
+    let s := run { noise := noise, login := login } evs
+    s.st = .closed → (step s e).writes = s.writes ∧ (step s e).deliveries = s.deliveries := by
+  intro s hc
+  have h := reach_quiet s _ (C05.run_inv _ (C05.init_inv noise login) evs) hc (step_reach s e)
+  exact ⟨h.1, h.2.1⟩
+
+/-- … and over any continuation -/
+theorem c08_silent_forever (noise login : Bool) (evs₁ evs₂ : List Ev) :
+    let s := run { noise := noise, login := login } evs₁
+    s.st = .closed → (run s evs₂).writes = s.writes ∧ (run s evs₂).deliveries = s.deliveries := by
+  intro s hc
+  have h := reach_quiet s _ (C05.run_inv _ (C05.init_inv noise login) evs₁) hc (run_reach s evs₂)
+  exact ⟨h.1, h.2.1⟩
+
+
+/-! ## release -/
+
+/-- the resource invariant: every timer belongs to a task that is still suspended at the await the
+timer guards; the keepalive exists only while connected; a closed connection holds no socket, no
+waiter and no unreleased interrupt future -/
+structure Res (s : State) : Prop where
+  t1 : s.hsTimer = true → s.finish = .awaitTransport ∨ s.finish = .awaitReady
+  t2 : s.hello.timer = true → s.finish = .awaitHello
+  t2r : s.hello.registered = true → s.finish = .awaitHello
+  t2w : s.hello.inWaiters = true → s.finish = .awaitHello
+  t3 : s.discReq.timer = true → s.disc = .awaitResp
+  t3r : s.discReq.registered = true → s.disc = .awaitResp
+  t3w : s.discReq.inWaiters = true → s.disc = .awaitResp
+  t4 : s.discWaitTimer = true → s.disc = .awaitFinish
+  t5 : s.resolveTimer = true → s.start = .awaitResolve
+  t5t : s.tcpTimer = true → s.start = .awaitSocket
+  t6 : s.pingArmed = true → s.st = .connected
+  t6p : s.pongArmed = true → s.st = .connected
+  r1 : s.st = .closed → s.sockAttached = false
+  r5 : s.st = .closed → s.hello.inWaiters = false ∧ s.discReq.inWaiters = false
+  r6 : s.st = .closed → s.startFut ≠ .pending ∧ s.finishFut ≠ .pending
+  f1 : hsComplete s = true → s.fhSet = true
+  f2 : s.finish = .awaitReady → s.st ≠ .closed → s.fhSet = true
+  nr : s.discRaw = false
+
+theorem init_res (noise login : Bool) : Res { noise := noise, login := login } := by
+  constructor <;> simp [hsComplete]
+
+set_option maxHeartbeats 4000000 in
+theorem prim_res (a b : State) (hl : C05.Inv a) (h : Res a) (p : Prim a b) : Res b := by
+  obtain ⟨t1, t2, t2r, t2w, t3, t3r, t3w, t4, t5, t5t, t6, t6p, r1, r5, r6, f1, f2, nr⟩ := h
+  obtain ⟨l1, l2, l3, l4, l5, l6, l7, l8, l9, l10, l11, l12⟩ := hl
+  cases p <;>
+    (constructor <;>
+      simp only [cleanup, collect, aSetFatal, aWrite, aMark, aAlive, aDeliver, aReadyFail, aTrClose, aTrAbort, aLostRun,
+        aDiscRespArr, aStartExit, aStartFutQuiet, aStartDone, aStartToSocket, startOkPath, aStartAttach, aStartFutCb, aSockOpened,
+        aFinExit, aFinFutQuiet, aFinDone, aTrCancelled, aFhAttach, aFinToReady, aHsEnter, aHelloStart, aHelloFinally,
+        helloOkPath, aKeepalive, aFinFutCb, aConnected, aDiscDone, aDiscRaw, aForceRaw, aDiscReqStart, aDiscWaitOver, aDiscCancelledW,
+        aDiscCancelledR, aDiscReqFinally, aRefused, aStartBegin, aResolveSet, aSockSet, aUserCancelStart, aFinishBegin,
+        aConnMadeFail, aConnMadeOk, aReadyOk, aUserCancelFinish, aCbStart, aCbFinish, aDiscBegin, aCbDiscWait,
+        aDiscCancelW, aDiscCancelR, aFireResolve, aFireTcp, aFireHs, aFireHello, aPingRearm, aPingPend, aPongOff,
+        aFireDiscWait, aFireDiscResp, aSetWrite, startReq, finishReq, resolveReq, failWaiter, hsComplete] <;>
+      (repeat' split) <;> grind [StartPend, FinPend, hsComplete])
+
+
+theorem reach_res (a b : State) (h1 : C05.Inv a) (h2 : Res a) (r : Reach a b) : C05.Inv b ∧ Res b := by
+  induction r with
+  | refl => exact ⟨h1, h2⟩
+  | snoc _ p ih => exact ⟨C05.prim_inv _ _ ih.1 p, prim_res _ _ ih.1 ih.2 p⟩
+
+theorem run_res (noise login : Bool) (evs : List Ev) : Res (run { noise := noise, login := login } evs) :=
+  (reach_res _ _ (C05.init_inv noise login) (init_res noise login) (run_reach _ evs)).2
+
+/-- **C08 (released at the closing step).**  In EVERY reachable state in which the connection is
+closed: the socket object has been closed and dropped, no keepalive and no pong timer is armed, no
+future is left in the waiter set, both interrupt futures have been released (so a connect phase
+still suspended is being cancelled), the handshake timer can only still be armed while the finish
+task has not yet resumed from the handshake await, and a request timer / handler only while the
+task that owns the request has not yet resumed (its `finally` removes them). -/
+theorem c08_released (noise login : Bool) (evs : List Ev) :
+    let s := run { noise := noise, login := login } evs
+    s.st = .closed →
+      s.sockAttached = false ∧ s.pingArmed = false ∧ s.pongArmed = false ∧
+      s.hello.inWaiters = false ∧ s.discReq.inWaiters = false ∧
+      s.startFut ≠ .pending ∧ s.finishFut ≠ .pending ∧
+      (s.hsTimer = true → s.finish = .awaitTransport ∨ s.finish = .awaitReady) ∧
+      ((s.hello.timer = true ∨ s.hello.registered = true) → s.finish = .awaitHello) ∧
+      ((s.discReq.timer = true ∨ s.discReq.registered = true) → s.disc = .awaitResp) ∧
+      (s.discWaitTimer = true → s.disc = .awaitFinish) ∧
+      (s.resolveTimer = true → s.start = .awaitResolve) ∧ (s.tcpTimer = true → s.start = .awaitSocket) := by
+  intro s hc
+  have h := run_res noise login evs
+  have hp : s.pingArmed = false := by
+    cases hx : s.pingArmed with
+    | false => rfl
+    | true => have := h.t6 hx; rw [hc] at this; cases this
+  have hq : s.pongArmed = false := by
+    cases hx : s.pongArmed with
+    | false => rfl
+    | true => have := h.t6p hx; rw [hc] at this; cases this
+  exact ⟨h.r1 hc, hp, hq, (h.r5 hc).1, (h.r5 hc).2, (h.r6 hc).1, (h.r6 hc).2, h.t1,
+    fun hx => hx.elim h.t2 h.t2r, fun hx => hx.elim h.t3 h.t3r, h.t4, h.t5, h.t5t⟩
+
+/-- **C08 (quiescent).**  Once every task that was suspended on the connection has resumed (no
+connect phase and no disconnect call is pending any more), a closed connection has NO timer armed
+at all — keepalive, pong, handshake, hello/login, disconnect-wait, disconnect-response, resolve,
+TCP — and no request handler registered. -/
+theorem c08_quiescent (noise login : Bool) (evs : List Ev) :
+    let s := run { noise := noise, login := login } evs
+    s.st = .closed → ¬ StartPend s → ¬ FinPend s → s.disc ≠ .awaitFinish → s.disc ≠ .awaitResp →
+      s.pingArmed = false ∧ s.pongArmed = false ∧ s.hsTimer = false ∧ s.hello.timer = false ∧
+      s.discReq.timer = false ∧ s.discWaitTimer = false ∧ s.resolveTimer = false ∧ s.tcpTimer = false ∧
+      s.hello.registered = false ∧ s.discReq.registered = false := by
+  intro s hc hs hf hd1 hd2
+  have h := run_res noise login evs
+  have rel := c08_released noise login evs hc
+  simp only [StartPend, FinPend, not_or] at hs hf
+  have nb : ∀ (x : Bool), (x = true → False) → x = false := by intro x hx; cases x <;> simp_all
+  refine ⟨rel.2.1, rel.2.2.1, nb _ ?_, nb _ ?_, nb _ ?_, nb _ ?_, nb _ ?_, nb _ ?_, nb _ ?_, nb _ ?_⟩
+  · intro hx; rcases h.t1 hx with h1 | h1
+    · exact hf.1 h1
+    · exact hf.2.1 h1
+  · intro hx; exact hf.2.2 (h.t2 hx)
+  · intro hx; exact hd2 (h.t3 hx)
+  · intro hx; exact hd1 (h.t4 hx)
+  · intro hx; exact hs.1 (h.t5 hx)
+  · intro hx; exact hs.2 (h.t5t hx)
+  · intro hx; exact hf.2.2 (h.t2r hx)
+  · intro hx; exact hd2 (h.t3r hx)
+
+/-- the keepalive exists only while connected; a helper is attached whenever the handshake is complete -/
+theorem c08_keepalive_only_connected (noise login : Bool) (evs : List Ev) :
+    let s := run { noise := noise, login := login } evs
+    (s.pingArmed = true → s.st = .connected) ∧ (s.pongArmed = true → s.st = .connected) ∧
+    (hsComplete s = true → s.fhSet = true) :=
+  let h := run_res noise login evs
+  ⟨h.t6, h.t6p, h.f1⟩
+
+/-! ## non-vacuity -/
+
+/-- DisconnectRequest followed by two more frames in the SAME chunk: nothing after the closing frame
+is delivered or answered -/
+example : let s := run {} (C07.happy ++ [.data [.other, .discReq, .other, .pingReq, .other]])
+    s.st = .closed ∧ s.deliveries = 1 ∧ s.writes = 2 ∧ s.pingArmed = false := by decide +kernel
+/-- a request in flight when the connection resets: the waiter is failed at the closing step, its
+timer and handler go when the task resumes -/
+example : let s := run {} (C07.happy ++ [.callDisc, .reset, .lost])
+    s.st = .closed ∧ s.discReq.inWaiters = false ∧ s.discReq.timer = true ∧ s.disc = .awaitResp := by decide +kernel
+example : let s := run {} (C07.happy ++ [.callDisc, .reset, .lost, .wakeDisc])
+    s.st = .closed ∧ s.discReq.timer = false ∧ s.discReq.registered = false ∧ s.disc = .done := by decide +kernel
+
 end Esp.C08
